@@ -411,7 +411,10 @@ func (n *ReconcileNode) syncWithAPI(ctx context.Context, node *networkv1beta1.No
 	for id := range node.Status.NetworkInterfaces {
 		if _, ok := eniIDMap[id]; !ok {
 			// as the eni is not attached, so just delete it
-			if node.Status.NetworkInterfaces[id].NetworkInterfaceType == networkv1beta1.ENITypeSecondary {
+			// (an eni of any type that is already recorded for deletion is finished here too,
+			// otherwise dropping the record leaks it)
+			if node.Status.NetworkInterfaces[id].NetworkInterfaceType == networkv1beta1.ENITypeSecondary ||
+				node.Status.NetworkInterfaces[id].Status == aliyunClient.ENIStatusDeleting {
 				var remote []*aliyunClient.NetworkInterface
 
 				// look the eni up by id only: a detached eni has no instance, with the instance
